@@ -152,6 +152,25 @@ async fn run_storm(a: &Args, m: &mut mon::Mon) {
                                     }
                                 }
                             }
+                            {
+                                // a fifth one that holds a third bank only: the liquidation opens two
+                                // positions next to the one it holds (every relative key order occurs)
+                                let thirds: Vec<usize> = (0..nb).filter(|b| *b != ca && *b != db && w.banks[*b].venue.is_none() && w.bank(*b).config.asset_tag <= 1 && w.bank(*b).config.operational_state == marginfi_type_crate::types::BankOperationalState::Operational).collect();
+                                for p3 in thirds.iter().take(3) {
+                                    let lq5 = w.add_account(g, lu).await;
+                                    let i = w.ix_deposit_any(lq5, *p3, lk.pubkey(), w.ta_of(lq5, *p3), 1 << 34);
+                                    if w.exec(m, &[i], &[&lk]).await.ok() {
+                                        for amt in [1000u64, 1_000_000] {
+                                            let i = w.ix_liquidate_x(lq5, lev.acct, ca, db, lk.pubkey(), amt, None);
+                                            let o = w.exec(m, &[i], &[&lk]).await;
+                                            if o.ok() {
+                                                m.r.count("C16.liquidations_by_holder_of_a_third_bank_only");
+                                                break;
+                                            }
+                                        }
+                                    }
+                                }
+                            }
                             if only_ca {
                                 for d in [None, Some(ca), Some(db)] {
                                     let i = w.ix_liquidate_x(lq2, lev.acct, ca, db, lk.pubkey(), storm::pick(&mut r, &[1u64, 1000]), d);
